@@ -53,6 +53,7 @@ func newEngine(P *Program, fn *ssa.Function, c *Contract, cf *ContractFile) *Eng
 	e.ginfo = map[*ssa.Global]*gInfo{}
 	e.lockedOnce = map[string]bool{}
 	e.freshObjs = map[string]bool{}
+	e.stableLoads = map[string]string{}
 	e.siteOrd = map[string]int{}
 	e.siteHit = map[string]int{}
 	if c != nil && c.Mode != "" {
